@@ -1395,6 +1395,31 @@ func simulateFrom(start, from0 *ssa.BasicBlock, stop map[*ssa.BasicBlock]bool, o
 				}
 				return
 			}
+			// an undecided test of a flag (a bool phi, possibly negated): each branch goes on
+			// under the outcome it assumed, so that `if c { A }; if !c { B }` has no path that
+			// skips both A and B
+			cv, neg := ssa.Value(i.Cond), false
+			for {
+				u, ok := cv.(*ssa.UnOp)
+				if !ok || u.Op != token.NOT {
+					break
+				}
+				cv, neg = u.X, !neg
+			}
+			if ph, ok := cv.(*ssa.Phi); ok {
+				for _, br := range []struct {
+					to  *ssa.BasicBlock
+					val bool
+				}{{t, !neg}, {f, neg}} {
+					e2 := map[*ssa.Phi]bool{}
+					for p, v := range env {
+						e2[p] = v
+					}
+					e2[ph] = br.val
+					walk(br.to, b, e2)
+				}
+				return
+			}
 		}
 		for _, s := range b.Succs {
 			walk(s, b, env)
